@@ -16,10 +16,11 @@ import (
 )
 
 type realOut struct {
-	Probes   map[string][]string `json:"probes"` // probe key -> distinct assignments observed
-	Runs     int                 `json:"runs"`
-	Mismatch []string            `json:"mismatch"`
-	Errors   []string            `json:"errors"`
+	Probes     map[string][]string `json:"probes"` // probe key -> distinct assignments observed
+	Runs       int                 `json:"runs"`
+	Mismatch   []string            `json:"mismatch"`
+	Errors     []string            `json:"errors"`
+	LostErrors int                 `json:"lost_errors_real_pool"`
 }
 
 func main() {
@@ -63,6 +64,18 @@ func main() {
 							got, err := b.run(n, p)
 							p.Stop()
 							out.Runs++
+							if b.expectErr && err == nil {
+								// The REAL pool (external module) records a job's error only after
+								// wg.Done(), so Wait can return before the error is stored: a lost
+								// job error is a window of the dependency, not of autodiff. Error
+								// propagation is therefore decided on the controlled pool only.
+								out.LostErrors++
+								continue
+							}
+							if b.expectErr && err != nil && rerr != nil && err.Error() != rerr.Error() {
+								out.Errors = append(out.Errors, fmt.Sprintf("%s|T=%d|buf=%d|n=%d: error %v vs sequential %v", b.name, T, buf, n, err, rerr))
+								break
+							}
 							if (err == nil) != (rerr == nil) {
 								out.Errors = append(out.Errors, fmt.Sprintf("%s|T=%d|buf=%d|n=%d: error %v vs sequential %v", b.name, T, buf, n, err, rerr))
 								break
